@@ -83,7 +83,7 @@ def _node(level, order, href, ti, kind, mi):
     title = ms = alt = STRS[ti]
     sch = C.schema
     meta = scalar(kind, mi, ms)
-    link = sch.marks["link"].create({"href": href, "title": title if title else None})
+    link = sch.marks["link"].create({"href": href, "title": (meta if kind >= 3 else (title if title else None))})
     em = sch.marks["em"].create()
     para = sch.nodes["paragraph"].create(None, [sch.text("x", [link, em]), sch.nodes["image"].create({"src": href, "alt": alt}),
                                                sch.text("y")])
@@ -120,7 +120,9 @@ def _node(level, order, href, ti, kind, mi):
         mj = link.to_json()
         mb = Mark.from_json(sch, wire(mj))
         ok = mb.eq(link) and mb.to_json() == mj and plain(mj) and (mj["attrs"] is not link.attrs)
-        why = None if ok else "mark round trip"
+        if ok and kind >= 3:
+            ok = link.to_json()["attrs"]["title"] is not link.attrs["title"]
+        why = None if ok else "mark round trip / alias"
     return rt.fin(ok, why)
 
 
